@@ -976,6 +976,14 @@ fn compare_records(pre: &Obs, post: &Obs, eff: &Effect, a: &Action, f: &mut Vec<
                         } else {
                             rule
                         };
+                        // fees and royalties never touch NFTs: the buyer must be entitled to exactly the listing's NFTs
+                        if matches!(a.act, Act::Buy { .. }) && want.goods.nfts != l.goods.nfts {
+                            f.push(Finding::new(
+                                "C03.half_swap",
+                                kind,
+                                format!("{kind}: the sold listing {} holds NFTs {:?}, the listing's own were {:?}", k.1, l.goods.nfts, want.goods.nfts),
+                            ));
+                        }
                         f.push(Finding::new(
                             r,
                             kind,
@@ -1045,6 +1053,13 @@ fn compare_records(pre: &Obs, post: &Obs, eff: &Effect, a: &Action, f: &mut Vec<
                         } else {
                             rule
                         };
+                        if matches!(a.act, Act::Buy { .. }) && want.funds.nfts != b.funds.nfts {
+                            f.push(Finding::new(
+                                "C03.half_swap",
+                                kind,
+                                format!("{kind}: the bucket {} handed to the seller holds NFTs {:?}, the bucket's own were {:?}", k.1, b.funds.nfts, want.funds.nfts),
+                            ));
+                        }
                         f.push(Finding::new(
                             r,
                             kind,
